@@ -1,6 +1,9 @@
 package main
 
 import (
+	"go/token"
+	"go/types"
+	"golang.org/x/tools/go/ssa"
 	"fmt"
 	"os"
 	"strings"
@@ -113,6 +116,33 @@ func main() {
 		for _, o := range s.Obs {
 			fmt.Println(o.V, o.Rule, o.Key, o.Detail)
 		}
+	case "aploads":
+		for _, fn := range p.ModuleFuncs() {
+			for _, b := range fn.Blocks {
+				for _, ins := range b.Instrs {
+					if u, ok := ins.(*ssa.UnOp); ok && u.Op == token.MUL {
+						if n, ok := u.Type().(*types.Named); ok && n.Obj().Name() == "AP" {
+							var refs []string
+							for _, r := range *u.Referrers() {
+								refs = append(refs, fmt.Sprintf("%T:%s", r, r.String()))
+							}
+							fmt.Printf("%s %s  load %s from %T(%s) -> %v\n", p.Pos(u.Pos()), fn.String(), u.Name(), u.X, u.X.String(), refs)
+						}
+					}
+				}
+			}
+		}
+	case "o":
+		oa := rules.O123(rc)
+		rules.O7(rc, oa)
+		rules.O6(rc)
+		rules.O8(rc)
+		for _, o := range s.Obs {
+			if o.Verdict != core.OK {
+				fmt.Println(o.V, o.Rule, o.Key, o.Detail)
+			}
+		}
+		fmt.Println("obligations", len(s.Obs), time.Since(t0))
 	case "l0":
 		rules.L0(rc, nil)
 		for _, o := range s.Obs {
